@@ -212,6 +212,20 @@ func (p *Prog) Func(pkgPath, name string) *ssa.Function {
 	if sp == nil {
 		return nil
 	}
+	fn := sp.Func(name)
+	// the genesis entry points may be thin wrappers around keeper methods: the rules analyse the function that does the work
+	if fn != nil && (name == "InitGenesis" || name == "ExportGenesis") {
+		return p.delegateOf(fn)
+	}
+	return fn
+}
+
+// FuncRaw: the function itself, without following a delegating wrapper.
+func (p *Prog) FuncRaw(pkgPath, name string) *ssa.Function {
+	sp := p.SSAPkg(pkgPath)
+	if sp == nil {
+		return nil
+	}
 	return sp.Func(name)
 }
 
